@@ -20,3 +20,50 @@ Theorem C09_pick_innermost_first : forall (L : Type) (layers : list L) k, 1 <= k
   pick layers k = nth_error (rev layers) (k - 1).
 Proof. exact @pick_innermost_first. Qed.
 Print Assumptions C09_pick_innermost_first.
+
+(* ---- the let layers as a state machine (L.LayerModel, innermost first; tied to the code by the layers correspondence) ---- *)
+From L Require Import LayerModel.
+
+(* `@`^d name writes the d-th layer counted from the innermost and only it: the new value is read back there, every
+   other name of that layer and every other layer read as before, the number of layers is unchanged *)
+Theorem C09_index : forall ls d k v, 1 <= d <= length ls ->
+  exists ls', sset ls d k v = Ok ls' /\ length ls' = length ls /\ sget ls' d k = Some v /\
+    (forall k', LayerModel.streq k' k = false -> sget ls' d k' = sget ls d k') /\
+    (forall d' k', d' <> d -> sget ls' d' k' = sget ls d' k').
+Proof. exact sset_index. Qed.
+Print Assumptions C09_index.
+
+(* `set @name` creates exactly one innermost layer when none exists *)
+Theorem C09_create : forall k v, sset [] 1 k v = Ok [[(k, v)]].
+Proof. exact sset_create. Qed.
+Print Assumptions C09_create.
+
+(* deeper selectors fail when the layer does not exist *)
+Theorem C09_missing : forall ls d k v, length ls < d -> ~ (ls = [] /\ d = 1) -> sset ls d k v = Err ValErr.
+Proof. exact sset_missing. Qed.
+Theorem C09_missing_rm : forall ls d k, length ls < d -> srm ls d k = Err ValErr.
+Proof. exact srm_missing_layer. Qed.
+Print Assumptions C09_missing.
+Print Assumptions C09_missing_rm.
+
+(* `rm` of the last binding of a layer removes that wrapper and only it: the layers inside it keep their index, the
+   layers outside move in by one, all with their content *)
+Theorem C09_prune : forall ls d k L, 1 <= d -> nth_error ls (d - 1) = Some L -> has_key L k = true -> remove_key L k = [] ->
+  srm ls d k = Ok (delete_nth (d - 1) ls) /\ S (length (delete_nth (d - 1) ls)) = length ls /\
+  (forall j, j < d - 1 -> nth_error (delete_nth (d - 1) ls) j = nth_error ls j) /\
+  (forall j, d - 1 <= j -> nth_error (delete_nth (d - 1) ls) j = nth_error ls (S j)).
+Proof. exact srm_prune. Qed.
+Print Assumptions C09_prune.
+
+(* `rm` of one of several bindings keeps the layer; other names and other layers are untouched *)
+Theorem C09_rm_frame : forall ls d k L, 1 <= d -> nth_error ls (d - 1) = Some L -> has_key L k = true -> remove_key L k <> [] ->
+  exists ls', srm ls d k = Ok ls' /\ length ls' = length ls /\
+    (forall k', LayerModel.streq k' k = false -> sget ls' d k' = sget ls d k') /\
+    (forall d' k', d' <> d -> sget ls' d' k' = sget ls d' k').
+Proof. exact srm_keep. Qed.
+Print Assumptions C09_rm_frame.
+
+(* over any sequence of scoped operations no empty `let in` wrapper is ever left behind *)
+Theorem C09_no_empty_layer : forall ops ls, nonempty_layers ls -> nonempty_layers (fold_left sstep ops ls).
+Proof. exact srun_nonempty. Qed.
+Print Assumptions C09_no_empty_layer.
